@@ -295,7 +295,9 @@ impl Run {
                 _ => false,
             };
             if !ok {
-                irreproducible.push(format!("{}: first={:?} second={:?}", f.key, a, b));
+                let mut wj = f.witness.to_string();
+                wj.truncate(600);
+                irreproducible.push(format!("{}: first={:?} second={:?} witness={}", f.key, a, b, wj));
                 continue;
             }
             let p = self.replay_path(&f.key);
